@@ -42,8 +42,11 @@ def run(pm, ctx):
     want = {"left_child": f"{tree}.children_left[{nid}]", "right_child": f"{tree}.children_right[{nid}]", "feature": f"{tree}.features[{nid}]",
             "threshold": f"{tree}.thresholds[{nid}]"}
     site = "print_node: node fields"
-    bad = {k: defs.get(k) for k, v in want.items() if defs.get(k) != v}
-    if bad:
+    missing = [k for k in want if k not in defs]
+    bad = {k: defs.get(k) for k, v in want.items() if k in defs and defs.get(k) != v}
+    if missing and not bad:
+        ctx.unrecognised("C19-a", site, f"print_node does not bind {missing}")
+    elif bad:
         ctx.violation("C19-a", u.relpath, "print_kauri_tree.print_node", str(bad), f"node fields are not read from the arrays predict uses at the same node: {bad}", line=pn.lineno, site=site)
     else:
         ctx.ok("C19-a", site, "children_left/right, features, thresholds at node_id")
@@ -63,6 +66,8 @@ def run(pm, ctx):
     site = "print_node: rule/child pairing"
     if seq == ["le", "rec:left_child", "gt", "rec:right_child"]:
         ctx.ok("C19-a", site, "`<=` rule then left child, `>` rule then right child")
+    elif sorted(x for x in seq if not x.startswith("rec:")) != ["gt", "le"] or len([x for x in seq if x.startswith("rec:")]) != 2:
+        ctx.unrecognised("C19-a", site, f"printing sequence {seq} is not two rule lines each followed by a recursive call")
     else:
         ctx.violation("C19-a", u.relpath, "print_kauri_tree.print_node", " ; ".join(seq), "the printed comparator does not lead to the child predict routes to "
                       "(expected: `<=` rule, left child, `>` rule, right child)", line=pn.lineno, site=site)
